@@ -32,7 +32,7 @@ bool_t oidIsValid(const char* oid)
 	size_t pos = 0;
 	size_t n = 0;
 	// pre
-	if (!strIsValid(oid))
+	if (oid == 0 || !strIsValid(oid))
 		return FALSE;
 	// цикл по символам oid
 	while (1)
